@@ -62,3 +62,12 @@ Theorem C05_system_window_restored : forall (A : Type) cmax W ls (s : pst A),
   prun cmax (p_init A W) ls = Some s -> p_wire s = [] -> p_rq s = [] -> p_credits s = [] -> p_swin s = W.
 Proof. exact system_window_restored. Qed.
 Print Assumptions C05_system_window_restored.
+
+(* nested tunnels: once everything has been read and credited the inner sender has its whole window *)
+From GT Require Import Frames Nested NestedProofs.
+Theorem C05_nested_window_restored : forall (A B : Type) (enc : dframe A -> list B) (dec : list B -> option (dframe A)),
+  (forall f, dec (enc f) = Some f) ->
+  forall cmaxI WI cmaxO WO ls (n : nst A B), nrun enc dec cmaxI cmaxO (n_init A B WI WO) ls = Some n ->
+  n_fl n = [] -> p_rq (n_in n) = [] -> p_credits (n_in n) = [] -> p_swin (n_in n) = WI.
+Proof. exact nested_window_restored. Qed.
+Print Assumptions C05_nested_window_restored.
